@@ -3,8 +3,8 @@
    re-checked against it.  Nothing else lives here. *)
 From RV.Model Require Import Base Word Limbs Bytes DivRecip DivSmall Redc.
 From RV.Gen Require Import Prim Scalar.
-From RV.Model Require Add.
-From RV.Proofs Require Import PfGenScalar PfGenAdd.
+From RV.Model Require Add Mul.
+From RV.Proofs Require Import PfGenScalar PfGenAdd PfGenMul.
 
 Theorem GenTie_source_equals_model :
   (forall bits, 0 <= bits -> bits + 63 < B -> g_nlimbs bits = Val (nlimbs bits)) /\
@@ -115,6 +115,25 @@ Proof.
               (g_wrapping_neg_eq bits a H0 HB Ha)))))))))))).
 Qed.
 Print Assumptions GenTie_add_rs.
+
+(* src/mul.rs wrappers (overflow flag, mask, checked / saturating forms) and Uint::apply_mask; the
+   limb kernels algorithms::addmul / addmul_n they call are Model/Limbs.v on both sides *)
+Theorem GenTie_mul_rs : forall bits a b,
+  0 <= bits -> nlimbs bits <= B -> wfU bits a -> wfU bits b -> Forall inW a -> Forall inW b ->
+  g_apply_mask bits (nlimbs bits) a = Val (masked bits a) /\
+  g_overflowing_mul bits (nlimbs bits) a b = Val (Mul.overflowing_mul bits a b) /\
+  g_checked_mul bits (nlimbs bits) a b = Val (Mul.checked_mul bits a b) /\
+  g_saturating_mul bits (nlimbs bits) a b = Val (Mul.saturating_mul bits a b) /\
+  g_wrapping_mul bits (nlimbs bits) a b = Mul.wrapping_mul bits a b.
+Proof.
+  intros bits a b H0 HB Ha Hb Wa Wb. unfold wfU in *.
+  exact (conj (g_apply_mask_eq bits a H0 HB Ha)
+        (conj (g_overflowing_mul_eq bits a b H0 HB Ha Hb Wa Wb)
+        (conj (g_checked_mul_eq bits a b H0 HB Ha Hb Wa Wb)
+        (conj (g_saturating_mul_eq bits a b H0 HB Ha Hb Wa Wb)
+              (g_wrapping_mul_eq bits a b H0 HB Ha Hb Wa Wb))))).
+Qed.
+Print Assumptions GenTie_mul_rs.
 
 (* the premises are satisfiable and the generated code computes: reciprocal(2^63) = 2^64 - 1 *)
 Example GenTie_nonvacuous :
